@@ -303,7 +303,8 @@ def _num_operand(draw, ctx, depth, kind, symbolic, prev_op, base_positive_litera
         choices += ["param"] * 4
         if ctx.sym_scalars:
             choices.append("symvar")
-        sym_arrs = [n for n, (t, r, c, sym) in ctx.arrays.items() if sym]
+        # (not complex ones: their numeric elements would become complex coefficients of symbols, see DESIGN 3.3)
+        sym_arrs = [n for n, (t, r, c, sym) in ctx.arrays.items() if sym and t != "complex"]
         if sym_arrs:
             choices.append("symidx")
     if symbolic == "regs" and ctx.regs:
